@@ -67,6 +67,8 @@ package age
 //@   call io.ReadFull#1 requires arg0 == payload && same(arg1, nonce) && len(nonce) == 16       [C02 C05]
 //@   call hmac.Equal#1 requires same(arg0, mac) && same(arg1, hdr.MAC)                          [C03]
 //@   call streamKey#1 requires same(arg0, fileKey) && same(arg1, nonce)                         [C02 C05]
+//@   ensures#wrapparse lasterr("Parse",1) != nil ==> err != nil && wraps(err, lasterr("Parse",1))            [C13 C14]
+//@   ensures#wrapnonce lasterr("io.ReadFull",1) != nil ==> err != nil && wraps(err, lasterr("io.ReadFull",1)) [C13 C14]
 //@   ensures#argsintact unchanged(identities)                                                    [C20]
 //@   modifies src.$rem, src.$bufd, src.$under.$rem, $uwn, $uwid, $uwerr, $uwkey, $eqcalls, $eqa, $eqb, $eqr
 
@@ -199,6 +201,7 @@ package age
 //@   requires dst != nil && (forall j in 0..len(recipients) :: recipients[j] != nil)
 //@   loop 1 invariant -1 <= rangeindex && rangeindex < len(recipients) && hdr != nil && len(fileKey) == 16 && (forall j in 0..len(hdr.Recipients) :: hdr.Recipients[j] != nil)
 //@   loop 1 invariant#sep unchanged(recipients) && disjoint(hdr.Recipients, recipients) && disjoint(fileKey, hdr.Recipients) && rg(fileKey) != 0
+//@   loop 1 invariant#nowraperr lasterr("wrapWithLabels",1) == nil
 //@   loop 1 invariant#freshhdr fresh(hdr) && (rg(hdr.Recipients) == 0 || fresh(hdr.Recipients))
 //@   loop 1 invariant#nowrite dst.$out == old(dst.$out) && $hmarshal == old($hmarshal)                                              [C11 C13]
 //@   loop 1 invariant#key bytes(fileKey) == csprng(old($draws), 16) && $draws > old($draws)                                         [C01 C06]
@@ -209,6 +212,7 @@ package age
 //@   loop 2 invariant#sep unchanged(recipients) && disjoint(hdr.Recipients, recipients) && disjoint(fileKey, hdr.Recipients) && rg(fileKey) != 0
 //@   loop 2 invariant#sep2 len(stanzas) == 0 || disjoint(hdr.Recipients, stanzas)
 //@   loop 2 invariant#outer 0 <= i && i < len(recipients)
+//@   loop 2 invariant#nowraperr lasterr("wrapWithLabels",1) == nil
 //@   loop 2 invariant#freshhdr fresh(hdr) && (rg(hdr.Recipients) == 0 || fresh(hdr.Recipients))
 //@   loop 2 invariant#nowrite dst.$out == old(dst.$out) && $hmarshal == old($hmarshal)                                              [C11 C13]
 //@   loop 2 invariant#key bytes(fileKey) == csprng(old($draws), 16) && $draws > old($draws)                                         [C01 C06]
@@ -230,6 +234,9 @@ package age
 //@   ensures#sorted err == nil ==> $sortn == old($sortn) + len(recipients)                                                            [C11]
 //@   ensures#out err == nil ==> dst.$out == cat(old(dst.$out), hdrbytes(hdr), " ", b64raw(bytes(hdr.MAC)), "\n", bytes(nonce)) && len(nonce) == 16   [C01 C03 C05 C13]
 //@   ensures#mac err == nil ==> bytes(hdr.MAC) == hmac256(sub(hkdfstream(bytes(fileKey), "", "header"), 0, 32), hdrbytes(hdr))       [C01 C03 C05]
+//@   ensures#failmarshal lasterr("Marshal",1) != nil ==> err != nil && wc == nil                                                    [C13]
+//@   ensures#failnonce lasterr("Writer).Write",1) != nil ==> err != nil && wc == nil                                                 [C13]
+//@   ensures#failwrap lasterr("wrapWithLabels",1) != nil ==> err != nil && wc == nil                                                 [C11 C13]
 //@   ensures#argsintact unchanged(recipients)                                                                                        [C20]
 //@   modifies dst.$out, dst.$wn, $draws, $sortn, $hmarshal, $scryptcalls
 //@   ensures#writer err == nil ==> typeis(wc, "*filippo.io/age/internal/stream.Writer") && cast(wc, "filippo.io/age/internal/stream.Writer").dst == dst && cast(wc, "filippo.io/age/internal/stream.Writer").a.$key == sub(hkdfstream(bytes(fileKey), bytes(nonce), "payload"), 0, 32) && len(cast(wc, "filippo.io/age/internal/stream.Writer").unwritten) == 0 && cast(wc, "filippo.io/age/internal/stream.Writer").err == nil   [C01 C05 C06 C13]
